@@ -164,7 +164,7 @@ func c18TreeMutate(r *h.Rand, root tv.Node) (tv.Node, string) {
 		return cp, "none"
 	}
 	s := structs[r.Intn(len(structs))]
-	muts := []string{"append-unknown", "dup-child", "swap-adjacent", "drop-child", "zero-leaf", "insert-zero-optional", "enum-unknown"}
+	muts := []string{"append-unknown", "dup-child", "swap-adjacent", "drop-child", "zero-leaf", "insert-zero-optional", "enum-unknown", "date-boundary"}
 	m := muts[r.Intn(len(muts))]
 	switch m {
 	case "append-unknown":
@@ -203,6 +203,22 @@ func c18TreeMutate(r *h.Rand, root tv.Node) (tv.Node, string) {
 		k := tv.Node{Tag: tg, Kind: []int{tv.KInt, tv.KEnum, tv.KText, tv.KBytes}[r.Intn(4)]}
 		i := r.Intn(len(s.Kids) + 1)
 		s.Kids = append(s.Kids[:i], append([]tv.Node{k}, s.Kids[i:]...)...)
+	case "date-boundary":
+		// a date-time at an end of the range the text encodings can carry (years 1 and 9999)
+		var dates []*tv.Node
+		var wd func(n *tv.Node)
+		wd = func(n *tv.Node) {
+			if n.Kind == tv.KDate {
+				dates = append(dates, n)
+			}
+			for i := range n.Kids {
+				wd(&n.Kids[i])
+			}
+		}
+		wd(&cp)
+		if len(dates) > 0 {
+			dates[r.Intn(len(dates))].I = []int64{-62135596800, -62135596799, 253402300799, 0}[r.Intn(4)]
+		}
 	case "enum-unknown":
 		for i := range s.Kids {
 			if s.Kids[i].Kind == tv.KEnum && r.Chance(1, 2) {
@@ -241,6 +257,10 @@ func c18DateVariant(r *h.Rand, enc string, val string) string {
 	t, err := time.Parse(time.RFC3339, val)
 	if err != nil {
 		return val
+	}
+	if r.Chance(1, 5) {
+		// the ends of the range: year 1 (the zero time.Time) and year 9999, also written with an offset
+		return []string{"0001-01-01T00:00:00Z", "0001-01-01T01:00:00+01:00", "9999-12-31T23:59:59Z", "9999-12-31T22:59:59-01:00", "0001-01-01T00:00:01Z"}[r.Intn(5)]
 	}
 	if enc == "json" && t.Unix() >= 0 && r.Bool() {
 		return fmt.Sprintf("0x%x", t.Unix())
